@@ -96,7 +96,7 @@ impl QuorumWaiter {
                         network::simnet::emit(format!("\"ev\":\"QWAck\",\"stake\":{},\"total\":{}", stake, total_stake));
                         if total_stake >= self.committee.quorum_threshold() {
                             #[cfg(hotstuff_verif)]
-                            network::simnet::emit(format!("\"ev\":\"QWRelease\",\"total\":{},\"len\":{}", total_stake, batch.len()));
+                            network::simnet::emit(format!("\"ev\":\"QWRelease\",\"total\":{},\"len\":{},\"digest\":\"{}\"", total_stake, batch.len(), network::simnet::hex(&<ed25519_dalek::Sha512 as ed25519_dalek::Digest>::digest(&batch)[..32])));
                             self.tx_batch
                                 .send(batch)
                                 .await
